@@ -50,7 +50,7 @@ def run(ctx):
             tagmap[tname] = [int(v) for v in rng.choice(ids, size=int(rng.integers(1, min(4, len(ids)) + 1)), replace=False)]
         radius = rng.integers(0, 5, size=len(ids)).astype(float) * 0.25
         be = str(rng.choice(['fastcore', 'igraph', 'nx']))
-        kind = str(rng.choice(['reroot', 'reroot', 'cut', 'subset', 'subset', 'subset_pf']))
+        kind = str(rng.choice(['reroot', 'reroot', 'cut', 'prune_method', 'subset', 'subset', 'subset_pf']))
         with F.backend(be):
             x = F.mk_neuron(f, connectors=cn, tags=dict(tagmap) if tagmap else None, radius=radius)
             prev = F.table_of(x)
@@ -91,6 +91,47 @@ def run(ctx):
                                         'classify (reroot_seq %s %s)' % (term(tgt), T)],
                                  cmp=_cmp_table(got, payload(res), prev_pay, canon_conn(res), prev_conn,
                                                 cable=(float(res.cable_length), prev_cable))))
+            elif kind == 'prune_method':
+                # TreeNeuron.prune_distal_to([a, b, ...]): several cuts = successive single cuts (nodes on different arms)
+                if x.n_trees != 1 or len(ids) < 3:
+                    continue
+                par_ = {int(i): int(p_) for i, p_, _ in prev}
+                def anc_(i):
+                    out_ = []
+                    while i >= 0:
+                        out_.append(i); i = par_[i]
+                    return out_
+                nr = [int(i) for i, p_, _ in prev if p_ >= 0]
+                cs, k_ = [], int(rng.choice([1, 2, 2, 3]))
+                for c_ in [int(v) for v in rng.permutation(nr)]:
+                    if all(c_ not in anc_(o) and o not in anc_(c_) for o in cs):
+                        cs.append(c_)
+                    if len(cs) == k_:
+                        break
+                inplace = bool(rng.integers(2))
+                desc.update(cut_nodes=cs, inplace=inplace, method='prune_distal_to')
+                st, res = guarded(x.prune_distal_to, cs if len(cs) > 1 else cs[0], inplace=inplace)
+                if st != 'ok':
+                    ctx.violation('prune_distal_to raised', desc, res)
+                    continue
+                res = x if inplace else res
+                ops_ = '; '.join('OCutProximal %s' % term(c_) for c_ in cs)
+                got = F.table_of(res)
+                def cmpm(got=got, pay=payload(res), conn=canon_conn(res), prev_pay=prev_pay, prev_conn=prev_conn):
+                    def cmp(ctx, desc, r):
+                        mt, mtypes = r
+                        exp = [tuple(a) for a in mt]
+                        if sorted((a, b) for a, b, _ in got) != sorted(exp):
+                            ctx.violation('prune_distal_to with several nodes differs from successive single cuts (specification model)', desc, dict(impl=got, model=exp))
+                            return
+                        if not _pay_ok(pay, prev_pay):
+                            ctx.violation('prune_distal_to changed coordinates/radius', desc)
+                        want = sorted(c for c in prev_conn if c[1] in pay)
+                        if conn != want:
+                            ctx.violation('prune_distal_to does not carry exactly the connectors of surviving nodes', desc, dict(impl=conn, expected=want))
+                    return cmp
+                jobs.append(dict(desc=desc, nt=nt, key=(prev, 'prune_method', tuple(cs)),
+                                 exprs=['out (run [%s] %s)' % (ops_, T), 'classify (run [%s] %s)' % (ops_, T)], cmp=cmpm()))
             elif kind == 'cut':
                 if x.n_trees != 1 or len(ids) < 2:
                     continue
